@@ -308,6 +308,9 @@ pub fn build(args: &[&str]) -> Option<Vec<String>> {
             let f: Vec<&str> = op.split(':').collect();
             b = match f.as_slice() {
                 ["K"] => b.keep_bcc(),
+                // `date_now()` (the Date set before is replaced, not duplicated) and `user_agent(text)`
+                ["D"] => b.date_now(),
+                ["U", t] => b.user_agent(unhex_str(t)?),
                 ["E", from, to] => {
                     let from = if *from == "-" { None } else { Some(unhex_str(from)?.parse::<Address>().ok()?) };
                     let to: Option<Vec<Address>> = to.split(';').map(|t| unhex_str(t)?.parse::<Address>().ok()).collect();
